@@ -46,8 +46,17 @@ Dev(name) == name \in KnownDevs
 ----------------------------------------------------------------------------
 (* reading a line *)
 AsSet(s) == {s[i] : i \in 1..Len(s)}
-ToTables(dp) == [pdr |-> AsSet(dp.pdr), far |-> AsSet(dp.far), appQer |-> AsSet(dp.appQer), sessQer |-> AsSet(dp.sessQer)]
-EmptyTables == [pdr |-> {}, far |-> {}, appQer |-> {}, sessQer |-> {}]
+\* the UP4 form of the observation (harness e2e/up4.go); on a BESS trace it is empty and vice versa
+U4 == INSTANCE Up4Image
+NoUp4 == [sessUL |-> {}, sessDL |-> {}, termUL |-> {}, termDL |-> {}, apps |-> {}, peers |-> {}, ifaces |-> {},
+          appMeters |-> {}, sessMeters |-> {}, sliceMeters |-> {}]
+Up4Of(dp) == [sessUL |-> AsSet(dp.sessUL), sessDL |-> AsSet(dp.sessDL), termUL |-> AsSet(dp.termUL), termDL |-> AsSet(dp.termDL),
+              apps |-> AsSet(dp.apps), peers |-> AsSet(dp.peers), ifaces |-> AsSet(dp.ifaces),
+              appMeters |-> AsSet(dp.appMeters), sessMeters |-> AsSet(dp.sessMeters), sliceMeters |-> AsSet(dp.sliceMeters)]
+ToTables(dp) ==
+  IF "sessUL" \in DOMAIN dp THEN [pdr |-> {}, far |-> {}, appQer |-> {}, sessQer |-> {}, up4 |-> Up4Of(dp)]
+  ELSE [pdr |-> AsSet(dp.pdr), far |-> AsSet(dp.far), appQer |-> AsSet(dp.appQer), sessQer |-> AsSet(dp.sessQer), up4 |-> NoUp4]
+EmptyTables == [pdr |-> {}, far |-> {}, appQer |-> {}, sessQer |-> {}, up4 |-> NoUp4]
 NoSnap == [has |-> FALSE]
 SnapOf(e) == IF "snap" \in DOMAIN e THEN e.snap ELSE NoSnap
 NoResp == [type |-> "none", seq |-> <<>>, hasSeid |-> FALSE, seid |-> "zero", cause |-> 0, node |-> "-",
@@ -415,7 +424,7 @@ InjectRespEv ==
 Relaxed == IF Dev("F-QER-RELABEL") THEN relabel ELSE {}
 ImageCheckApplies == (last.ev = "req" /\ last.kind \in {"estab", "mod", "del"} /\ last.accepted) \/ last.ev = "start"
 UsedNow ==
-  (IF ImageCheckApplies /\ ~TablesAreImage(tables, sess, stale, {}, tainted) /\ TablesAreImage(tables, sess, stale, Relaxed, tainted)
+  (IF ImageCheckApplies /\ cfg.dp # "up4" /\ ~TablesAreImage(tables, sess, stale, {}, tainted) /\ TablesAreImage(tables, sess, stale, Relaxed, tainted)
    THEN {"F-QER-RELABEL"} ELSE {})
   \cup (IF \E e \in stale : e \in tables.appQer \cup tables.sessQer THEN {"F-QER-RELABEL"} ELSE {})
 
@@ -644,6 +653,14 @@ C13_NoneForUnknownOrSilentSessions == chk.srrNone
 C13_AtMostOncePerInterval == chk.srrRate
 C13_ReportRequestShape == chk.srrShape
 
+\* C04 (UP4 datapath)
+OnUp4 == cfg.dp = "up4"
+AfterAccepted4 == last.ev = "req" /\ last.kind \in {"estab", "mod", "del", "release"} /\ last.accepted
+C04_Applies == OnUp4 /\ (AfterAccepted4 \/ last.ev \in {"start", "lost"})
+C04_TablesAreImage == C04_Applies => U4!TablesAreImage(tables.up4, sess, cfg.up4)
+C04_InterfacesThroughout == (OnUp4 /\ alive) => U4!IfacesOK(tables.up4, cfg.up4)
+Up4Envelope == OnUp4 => U4!WorldEnvelope(sess)
+
 \* C14
 C14_EndMarkersToOldTunnelOnce == chk.markers
 
@@ -681,4 +698,6 @@ DbgQer == IF AfterAcceptedSessionReq
           ELSE {}
 AliasC09 == [l |-> l, last |-> last, relabel |-> relabel, qerbad |-> DbgQer]
 Alias == [l |-> l, last |-> last, chk |-> chk, live |-> DOMAIN sess, relabel |-> relabel, used |-> used, dbg |-> Dbg]
+Alias4 == [l |-> l, last |-> last, chk |-> chk, live |-> DOMAIN sess,
+           diag |-> IF OnUp4 THEN U4!ImageDiag(tables.up4, sess, cfg.up4) ELSE <<>>]
 =============================================================================
